@@ -452,6 +452,38 @@ def resolve_upvars(prog, b, t):
     return go(t)
 
 
+def option_filter_ok(b, prog, site, opt_param, is_own):
+    """Path-sensitive form of `opt.is_none_or(|k| k == OWN)`: in every state reaching block `site`, the Option parameter
+    `opt_param` is None, or it is Some(k) and a comparison `k == OWN` (is_own(canonical term) decides what OWN is) is known
+    to have been true. Accepts match / if-let / let-else spellings of the filter."""
+    import terms as _T
+    from pathsens import PathSens as _PS
+    pl = [l for l in range(1, b.arg_count + 1) if b.local_name(l) == opt_param]
+    if not pl:
+        return False
+    tm = _T.Terms(b, prog)
+    eqs = []
+    payload = ("f", ("as", ("p", opt_param), "Some"), 0)
+    for bi, t in b.calls():
+        cn = callee_name(t["callee"]) or ""
+        if cn.endswith(("PartialEq>::eq", "PartialEq::eq")) and len(t["args"]) == 2:
+            a = [_T.canon(_T.strip_refs(tm.operand(x))) for x in t["args"]]
+            if (a[0] == payload and is_own(a[1])) or (a[1] == payload and is_own(a[0])):
+                eqs.append(bi)
+    ps = _PS(b, prog, track=lambda n: bool(n) and n.endswith(("PartialEq>::eq", "PartialEq::eq")))
+    sts = ps.states_at(site)
+    if not sts:
+        return False
+    for _, env in sts:
+        d = env.get(("d", pl[0], ()))
+        if d == 0:
+            continue
+        if d == 1 and any(env.get(("c", e)) == 1 for e in eqs):
+            continue
+        return False
+    return True
+
+
 def normalize_cmp(t):
     """For a comparison term returns (lhs, rel, rhs) with rel in {'le','lt','eq','ne'}
     meaning lhs rel rhs, or None."""
